@@ -153,6 +153,27 @@ def run(m, rep, tier):
                                                              ('; ' if only_s and only_u else '') + (('only unslice writes ' + ', '.join(only_u)) if only_u else '')),
                          floc(m, fu_ if only_s else fs_), {})
 
+    # ---- A10: a descriptor is written only while nobody else can see it -------------------------------------------
+    # the descriptor (element size, count, buffer) is shared by every view: its members are filled in right after it was
+    # allocated, in the function that allocated it -- never on one that was found in the object
+    a10 = rep.rule('A10', 'descriptor members (sz, nm, buf) are written only on a descriptor allocated by the same call', floor=1)
+    amod = m.focus('array')
+    n10 = 0
+    for f in amod.defined():
+        ws = [s2 for s2 in f.all_insts() if s2.op == 'store' and resolve_addr(f, s2.o[1]).fsteps[-1:] and resolve_addr(f, s2.o[1]).fsteps[-1][0] == 'cstl_raw_array']
+        if not ws:
+            continue
+        n10 += 1
+        allocs = [c for c in f.all_insts() if c.op == 'call' and c.callee in ('cstl_shared_ptr_alloc', 'cstl_array_alloc', 'malloc', 'calloc')]
+        late = [s2 for s2 in ws if not any(f.dominates(c, s2) for c in allocs)]
+        if late:
+            a10.violation(f.name, 'the descriptor member %s is written at %s on a path that did not allocate the descriptor: other views share it and are '
+                          'now measured with a geometry they were not created for' % (resolve_addr(f, late[0].o[1]).path, late[0].loc()), floc(m, f), {})
+        else:
+            a10.ok(f.name, '%d descriptor store(s), all after the allocation made by this call' % len(ws), floc(m, f))
+    if n10 == 0:
+        a10.undecided('array.c', 'no store into a descriptor found')
+
 
 def check_coupled(m, f, k, d, rule):
     root = '$%d' % k
